@@ -13,6 +13,7 @@ use std::collections::HashSet;
 pub fn gens() -> Vec<Gen> {
     vec![
         Gen { name: "c11.issuer_sequences", prop: "C11", tags: &["issuer", "issue_sd_jwt", "reset", "holder_key", "cnf", "src/issuer.rs"], cases: cases_issuer, check: check_issuer },
+        Gen { name: "c11.holder_repeat_args", prop: "C11", tags: &["nonce", "repeat", "key_binding", "kb", "create_presentation"], cases: cases_holder_repeat, check: check_holder },
         Gen { name: "c11.holder_sequences", prop: "C11", tags: &["holder", "create_presentation", "kb_jwt", "sd_jwt_json", "src/holder.rs"], cases: cases_holder, check: check_holder },
         Gen { name: "c11.issuer_long_random", prop: "C11", tags: &["random"], cases: cases_issuer_random, check: check_issuer },
         Gen { name: "c11.holder_long_random", prop: "C11", tags: &["random"], cases: cases_holder_random, check: check_holder },
@@ -29,6 +30,9 @@ fn issuer_steps() -> Vec<J> {
         json!({"claims": c, "strategy": {"Custom": ["$.n[0]", "$.n[0][1]", "$.sub"]}, "holder": "eddsa", "decoys": true, "format": "json"}),
         json!({"claims": a, "strategy": "NoSD", "holder": null, "decoys": false, "format": "compact"}),
         json!({"claims": b, "strategy": "AllLevels", "holder": "es256-b", "decoys": false, "format": "compact"}),
+        // the very same requests as the first two, in the other serialization format
+        json!({"claims": a, "strategy": "AllLevels", "holder": "es256", "decoys": true, "format": "json"}),
+        json!({"claims": b, "strategy": "TopLevel", "holder": null, "decoys": false, "format": "compact"}),
         // failing calls
         json!({"claims": [1, 2], "strategy": "AllLevels", "holder": "eddsa", "decoys": true, "format": "json", "fails": true}),
         json!({"claims": a, "strategy": {"Custom": ["name"]}, "holder": "es256", "decoys": true, "format": "json", "fails": true}),
@@ -169,6 +173,55 @@ fn holder_cfg(n: usize) -> J {
     }
 }
 
+/// The same key-binding arguments (nonce / aud / key) in consecutive and non-consecutive calls,
+/// also after failed calls: call k must behave as on a fresh holder.
+fn cases_holder_repeat(_rng: &mut Rng, sink: &mut dyn FnMut(J) -> bool) {
+    let s1 = json!({"name": true, "addr": {"city": true}, "tags": [true, true]});
+    let repeat = vec![
+        json!({"selection": s1, "kb": true, "nonce_id": 7}),
+        json!({"selection": {}, "kb": true, "nonce_id": 7}),
+        json!({"selection": {"name": true}, "kb": "bad_alg", "nonce_id": 7, "fails": true}),
+        json!({"selection": s1, "kb": true, "nonce_id": 7, "aud_id": 8}),
+    ];
+    let between = vec![
+        json!({"selection": {"sub": true}, "kb": false}),
+        json!({"selection": s1, "kb": true, "nonce_id": 9}),
+        json!({"selection": {"nope": true}, "kb": false, "fails": true}),
+        json!({"selection": {"name": true}, "kb": "inconsistent", "nonce_id": 7, "fails": true}),
+    ];
+    let mut seqs: Vec<Vec<J>> = Vec::new();
+    for a in &repeat {
+        for b in &repeat {
+            seqs.push(vec![a.clone(), b.clone()]);
+        }
+    }
+    for a in &repeat {
+        for m in &between {
+            for b in &repeat {
+                seqs.push(vec![a.clone(), m.clone(), b.clone()]);
+            }
+        }
+    }
+    for a in &repeat {
+        for b in &repeat {
+            for c in &repeat {
+                seqs.push(vec![a.clone(), b.clone(), c.clone()]);
+            }
+        }
+    }
+    let mut n = 0usize;
+    for seq in seqs {
+        for _ in 0..2 {
+            n += 1;
+            let mut c = holder_cfg(n);
+            c["calls"] = J::Array(seq.clone());
+            if !sink(c) {
+                return;
+            }
+        }
+    }
+}
+
 fn cases_holder(_rng: &mut Rng, sink: &mut dyn FnMut(J) -> bool) {
     let calls = holder_calls();
     let mut n = 0usize;
@@ -215,7 +268,10 @@ fn cases_holder_random(rng: &mut Rng, sink: &mut dyn FnMut(J) -> bool) {
 
 fn do_call(h: &mut sd_jwt_rs::SDJWTHolder, call: &J, k: usize, holder: &str) -> (Out<String>, Option<Kb>) {
     let sel: Map<String, J> = call["selection"].as_object().cloned().unwrap_or_default();
-    let kb = Kb { nonce: format!("nonce-{k}"), aud: format!("https://verifier-{k}.example"), holder: holder.to_string() };
+    // key-binding arguments are per call index unless the call pins them (to repeat them across calls)
+    let nonce_id = call["nonce_id"].as_u64().map(|v| v as usize).unwrap_or(k);
+    let aud_id = call["aud_id"].as_u64().map(|v| v as usize).unwrap_or(nonce_id);
+    let kb = Kb { nonce: format!("nonce-{nonce_id}"), aud: format!("https://verifier-{aud_id}.example"), holder: holder.to_string() };
     match &call["kb"] {
         J::Bool(true) => (sut::present(h, &sel, Some(&kb)), Some(kb)),
         J::Bool(false) => (sut::present(h, &sel, None), None),
